@@ -110,6 +110,7 @@ func (r *reference) resolveRef(cfg *Config, opts *options) (value, error) {
 	env := opts.env
 
 	if ok := opts.activeFields.AddNew(r.Path.String()); !ok {
+		*opts.cycles++
 		return nil, raiseCyclicErr(r.Path.String())
 	}
 
